@@ -11,27 +11,27 @@
 EXTENDS H3Message, H3Codes, Json, IOUtils
 
 Rec == ndJsonDeserialize(IOEnv.TRACE)
-VARIABLES l, scn, meta, rets, closed, drvErr, fins, ok, why
-vars == <<l, scn, meta, rets, closed, drvErr, fins, ok, why>>
+VARIABLES l, scn, role, meta, rets, closed, drvErr, fins, stops, rsts, ok, why
+vars == <<l, scn, role, meta, rets, closed, drvErr, fins, stops, rsts, ok, why>>
 E == Rec[l]
 
 Body == <<104, 101, 108, 108, 111>>
 SidOfTask(t) == CASE t \in {"h0", "h0.s", "h0.r"} -> 0 [] t \in {"h4", "h4.s", "h4.r"} -> 4 [] t \in {"h8", "h8.s", "h8.r"} -> 8 [] OTHER -> -1
 Of(sid) == SelectSeq(rets, LAMBDA r : r.sid = sid)
 IsErr(r) == r.k \in {"stream_err", "remote_terminate", "conn_err", "too_big", "remote_closing", "undefined", "unknown_stream_error"}
-RecvApis == {"resolve_request", "recv_data", "recv_trailers"}
-SendApis == {"send_response", "send_data", "send_trailers", "finish"}
+RecvApis == {"resolve_request", "recv_response", "recv_data", "recv_trailers"}
+SendApis == {"send_request", "send_response", "send_data", "send_trailers", "finish"}
 
 HealthyOk(sid) ==
     LET rs == Of(sid) IN
     /\ \A i \in DOMAIN rs : ~IsErr(rs[i])
     /\ LET rv == SelectSeq(rs, LAMBDA r : r.api \in RecvApis) IN
-       /\ Len(rv) >= 3 /\ rv[1].k = "request"
+       /\ Len(rv) >= 3 /\ rv[1].k = (IF role = "server" THEN "request" ELSE "response")
        /\ rv[Len(rv)].k = "none" /\ rv[Len(rv)].api = "recv_trailers" /\ rv[Len(rv) - 1].k = "none"
        /\ LET ds == SelectSeq(rv, LAMBDA r : r.k = "data")
               RECURSIVE Cat(_) Cat(i) == IF i > Len(ds) THEN <<>> ELSE ds[i].bytes \o Cat(i + 1)
           IN Cat(1) = Body /\ Len(ds) = Len(rv) - 3
-    /\ LET sd == SelectSeq(rs, LAMBDA r : r.api \in SendApis) IN Len(sd) = 3 /\ \A i \in DOMAIN sd : sd[i].k = "ok"
+    /\ LET sd == SelectSeq(rs, LAMBDA r : r.api \in SendApis) IN Len(sd) = (IF role = "server" THEN 3 ELSE 2) /\ \A i \in DOMAIN sd : sd[i].k = "ok"
     /\ sid \in fins
 
 FaultyOk(sid, kind, code) ==
@@ -43,37 +43,48 @@ FaultyOk(sid, kind, code) ==
               /\ LET rv == SelectSeq(rs, LAMBDA r : r.api \in RecvApis) IN
                  rv # <<>> /\ rv[Len(rv)].k = "remote_terminate" /\ ~(\E i \in DOMAIN rv : rv[i].k = "none")
          [] kind = "stop" -> \A i \in DOMAIN errs : errs[i].k = "remote_terminate" /\ errs[i].code = code /\ errs[i].api \in SendApis
-         [] kind = "malformed" -> Len(rs) = 1 /\ rs[1].k = "stream_err" /\ rs[1].code = H3_MESSAGE_ERROR
+         [] kind = "malformed" /\ role = "server" ->
+              /\ Len(rs) = 1 /\ rs[1].k = "stream_err" /\ rs[1].code = H3_MESSAGE_ERROR
+              \* the peer is told: the response side is reset with the code, it does not end as a clean (and empty) response
+              /\ <<sid, H3_MESSAGE_ERROR>> \in rsts /\ sid \notin fins
+         [] kind = "malformed" ->
+              /\ Len(errs) = 1 /\ errs[1].api = "recv_response" /\ errs[1].k = "stream_err" /\ errs[1].code = H3_MESSAGE_ERROR
+              \* the refused response is not left to pile up while the application keeps the stream: the client stops it
+              /\ sid \in stops
          [] kind = "badtrailers" -> Len(errs) = 1 /\ errs[1].api = "recv_trailers" /\ errs[1].k = "stream_err" /\ errs[1].code = H3_MESSAGE_ERROR
-         [] kind = "oversize" -> Len(rs) = 1 /\ rs[1].k = "too_big"
+         [] kind = "oversize" /\ role = "server" -> Len(rs) = 1 /\ rs[1].k = "too_big"
+         [] kind = "oversize" -> Len(errs) = 1 /\ errs[1].api = "recv_response" /\ errs[1].k = "too_big" /\ sid \in stops
          [] kind = "finfirst" -> Len(rs) = 1 /\ rs[1].k = "stream_err" /\ rs[1].code = H3_REQUEST_INCOMPLETE
+                                /\ <<sid, H3_REQUEST_INCOMPLETE>> \in rsts /\ sid \notin fins
          [] OTHER -> errs = <<>>
 
 Check == /\ closed = -1 /\ ~drvErr
          /\ \A i \in DOMAIN meta.kinds :
                IF meta.kinds[i] = "healthy" THEN HealthyOk(4 * (i - 1)) ELSE FaultyOk(4 * (i - 1), meta.kinds[i], meta.codes[i])
 
-Init == l = 1 /\ scn = "" /\ meta = <<>> /\ rets = <<>> /\ closed = -1 /\ drvErr = FALSE /\ fins = {} /\ ok = TRUE /\ why = <<"">>
-Reset == E.ev = "reset" /\ scn' = E.scn /\ meta' = E.meta /\ rets' = <<>> /\ closed' = -1 /\ drvErr' = FALSE /\ fins' = {} /\ ok' = TRUE /\ why' = <<"">>
+Init == l = 1 /\ scn = "" /\ role = "server" /\ meta = <<>> /\ rets = <<>> /\ closed = -1 /\ drvErr = FALSE /\ fins = {} /\ stops = {} /\ rsts = {} /\ ok = TRUE /\ why = <<"">>
+Reset == E.ev = "reset" /\ scn' = E.scn /\ role' = E.role /\ meta' = E.meta /\ rets' = <<>> /\ closed' = -1 /\ drvErr' = FALSE /\ fins' = {} /\ stops' = {} /\ rsts' = {} /\ ok' = TRUE /\ why' = <<"">>
 Proj(r) == CASE r.k = "data" -> [k |-> "data", bytes |-> r.bytes]
              [] r.k \in {"stream_err", "remote_terminate"} -> [k |-> r.k, code |-> r.code]
              [] OTHER -> [k |-> r.k]
 ARet == /\ E.ev = "ret" /\ SidOfTask(E.task) # -1 /\ E.api \in (RecvApis \cup SendApis)
         /\ rets' = Append(rets, Proj(E.res) @@ [sid |-> SidOfTask(E.task), api |-> E.api])
-        /\ UNCHANGED <<scn, meta, closed, drvErr, fins, ok, why>>
-DRet == /\ E.ev = "ret" /\ E.api = "accept" /\ E.res.k = "conn_err" /\ drvErr' = TRUE /\ UNCHANGED <<scn, meta, rets, closed, fins, ok, why>>
-Fin == E.ev = "h3_fin" /\ fins' = fins \cup {E.sid} /\ UNCHANGED <<scn, meta, rets, closed, drvErr, ok, why>>
-Close == E.ev = "h3_close" /\ closed' = (IF closed = -1 THEN E.code ELSE closed) /\ UNCHANGED <<scn, meta, rets, drvErr, fins, ok, why>>
+        /\ UNCHANGED <<scn, role, meta, closed, drvErr, fins, stops, rsts, ok, why>>
+DRet == /\ E.ev = "ret" /\ E.api \in {"accept", "wait_idle"} /\ E.res.k = "conn_err" /\ drvErr' = TRUE /\ UNCHANGED <<scn, role, meta, rets, closed, fins, stops, rsts, ok, why>>
+Fin == E.ev = "h3_fin" /\ fins' = fins \cup {E.sid} /\ UNCHANGED <<scn, role, meta, rets, closed, drvErr, stops, rsts, ok, why>>
+Stop == E.ev = "h3_stop" /\ stops' = stops \cup {E.sid} /\ UNCHANGED <<scn, role, meta, rets, closed, drvErr, fins, rsts, ok, why>>
+Rst == E.ev = "h3_reset" /\ rsts' = rsts \cup {<<E.sid, E.code>>} /\ UNCHANGED <<scn, role, meta, rets, closed, drvErr, fins, stops, ok, why>>
+Close == E.ev = "h3_close" /\ closed' = (IF closed = -1 THEN E.code ELSE closed) /\ UNCHANGED <<scn, role, meta, rets, drvErr, fins, stops, rsts, ok, why>>
 Bad == /\ E.ev \in {"panic", "late", "livelock", "harness_panic"}
-       /\ ok' = FALSE /\ why' = (IF ok THEN <<"event", E.ev>> ELSE why) /\ UNCHANGED <<scn, meta, rets, closed, drvErr, fins>>
+       /\ ok' = FALSE /\ why' = (IF ok THEN <<"event", E.ev>> ELSE why) /\ UNCHANGED <<scn, role, meta, rets, closed, drvErr, fins, stops, rsts>>
 Quiesce == /\ E.ev = "quiesce"
            /\ LET good == Check okk == ok /\ good w == IF ok /\ ~good THEN <<"at quiescence">> ELSE why
               IN ok' = okk /\ why' = w /\ (IF okk THEN TRUE ELSE PrintT(<<"REJECT", scn, ToJson(w)>>))
-           /\ UNCHANGED <<scn, meta, rets, closed, drvErr, fins>>
-Other == /\ ~(E.ev \in {"reset", "h3_fin", "h3_close", "panic", "late", "livelock", "harness_panic", "quiesce"})
-         /\ ~(E.ev = "ret" /\ ((SidOfTask(E.task) # -1 /\ E.api \in (RecvApis \cup SendApis)) \/ (E.api = "accept" /\ E.res.k = "conn_err")))
-         /\ UNCHANGED <<scn, meta, rets, closed, drvErr, fins, ok, why>>
-Next == l <= Len(Rec) /\ l' = l + 1 /\ (Reset \/ ARet \/ DRet \/ Fin \/ Close \/ Bad \/ Quiesce \/ Other)
+           /\ UNCHANGED <<scn, role, meta, rets, closed, drvErr, fins, stops, rsts>>
+Other == /\ ~(E.ev \in {"reset", "h3_fin", "h3_stop", "h3_reset", "h3_close", "panic", "late", "livelock", "harness_panic", "quiesce"})
+         /\ ~(E.ev = "ret" /\ ((SidOfTask(E.task) # -1 /\ E.api \in (RecvApis \cup SendApis)) \/ (E.api \in {"accept", "wait_idle"} /\ E.res.k = "conn_err")))
+         /\ UNCHANGED <<scn, role, meta, rets, closed, drvErr, fins, stops, rsts, ok, why>>
+Next == l <= Len(Rec) /\ l' = l + 1 /\ (Reset \/ ARet \/ DRet \/ Fin \/ Stop \/ Rst \/ Close \/ Bad \/ Quiesce \/ Other)
 Spec == Init /\ [][Next]_vars
 TraceAccepted == TLCGet("stats").diameter - 1 = Len(Rec)
 =============================================================================
